@@ -143,4 +143,12 @@ CHECKS = {
         "level_note": "crypto/tls and crypto/x509 are trusted; byte flips cover every position of binding and signature and 16 positions of the identity; kernel TCP is replaced by an in-memory stream",
         "budget_s": {"quick": 170, "thorough": 900},
     },
+    "C17": {
+        "pkg": "checks/c17", "level": "fault_enumeration", "engine": "E4 bounded-exhaustive",
+        "overlay": "net", "overlay_fallback": True,
+        "technique": "exhaustive enumeration of payload lengths x type/topic combinations, of all interleavings of concurrent Send calls, and of peer faults (refuse, stall with back-pressure, break after every byte count over the first frames, garble, full queue) on the real net package over in-memory TLS in a synctest bubble (dial seam redirected by overlay)",
+        "level_text": "every enumerated message arrives exactly once, unmodified, in enqueue order per sender goroutine; oversized frames deliver nothing; with each fault of one peer the process survives a virtual minute of continued sending and the traffic to the healthy peer all arrives",
+        "level_note": "crypto/tls trusted; in-memory stream instead of kernel TCP (short reads happen at TLS-record granularity only); if tls.Dial cannot be redirected on the tree under check only the receiver-side cases run",
+        "budget_s": {"quick": 170, "thorough": 900},
+    },
 }
